@@ -671,11 +671,10 @@ class SArr:
             if len(bshape) != len(shape) or not all(_same(a, b) for a, b in zip(bshape, shape)):
                 raise SValueError("could not broadcast input array into shape")
             vsnap = value._snapshot()
-            off = len(shape) - len(vshape)
+            proj = _bmap(vshape, len(shape), shape)      # decided now (not lazily): unit-extent axes of the value broadcast
 
             def val_at(k):
-                kk = tuple(k[off + d] if not _is_one(vshape[d]) else z3.IntVal(0) for d in range(len(vshape)))
-                return vsnap(kk)
+                return vsnap(proj(k))
         else:
             v = LF.of(value)
             val_at = lambda k: v
